@@ -156,6 +156,13 @@ SEARCH_SOURCES = [
     "namespace W { static int v; int get() { return v; } }\nint user(int W) { int v = W; return v + ::W::v + ::W::get(); }\n",
     "enum E { A = 2, B = A + 1, C = B };\nnamespace N { cbuffer CB { int cbm; } template<int K> int tv() { return K + cbm; } enum F { P = 1, Q = P << 1 }; }\n"
     "int useall() { return (int)B + N::tv<3>() + (int)N::Q; }\n",
+    # template value arguments (seeded mutant C04-4): the kind recorded for a literal argument must be the kind its printed
+    # spelling is read back with; the parameter is combined with untyped literals in int / uint / float contexts
+    'template<int N> int f(int x) { int y = N + 1; return x + y; }\nint user() { return f<3>(1); }\n',
+    'template<int N> int f(int x) { int y = N + 1; for (int i = 0; i < N + 1; ++i) { x += N << 1; } return x + y; }\ntemplate<typename T, T A> T g(T x) { T y = A + 1; return x * A + y; }\ntemplate<bool B> int h(int x) { return B ? x + 1 : 2; }\ntemplate<typename T> T tw(T x) { return x + x + 1; }\nint user() { return f<3>(1) + f<2 + 1>(2) + f<3u>(3) + g<int, 5>(1) + (int)g<float, 2>(1.5) + (int)g<uint, 2u>(1u) + h<true>(1) + tw(1) + (int)tw(1.5) + (int)tw(2u); }\n',
+    # siblings: enum values, constants folded into array sizes / case labels, static const initialisers, default parameter
+    # values, literal arguments of overloaded functions and intrinsics
+    'enum E { A = 2, B = A + 1, C = 1 << 3, D = 0x10u, F = -1 };\nstatic const int K = 4;\nstatic const uint KU = 3u;\nstatic const int K2 = K + 1;\nstatic const float KF = K * 2;\nstatic float garr[K + 1];\nstatic int garr2[KU];\nstatic int garr3[B];\nint d(int a = 3, uint b = 2, float c = 1, int e = K + 1) { return a + (int)b + (int)c + e; }\nint pick(int a) { return 1; }\nint pick(float a) { return 3; }\nint user(int v) {\n    float arr[K * 2];\n    int arr2[2 + 2];\n    int r = d() + d(1) + d(1, 2) + d(1, 2u, 3);\n    r += pick(K + 1) + pick(1 + 1) + pick((int)B + 1) + pick(KF);\n    r += min(K, 2) + max(1, 2) + (int)min(KU, 2) + (int)clamp(v, 0, 10) + (int)pow(2, 3) + abs(-3) + (int)lerp(0, 1, 0.5);\n    switch (v) { case K: r += 1; break; case K + 1: r += 2; break; default: break; }\n    int e = (int)A + 1; uint eu = (uint)B + 1u; float ef = (int)C * 1.5;\n    E ev = (E)1;\n    return r + e + (int)eu + (int)ef + (int)ev;\n}\n',
 ]
 
 
